@@ -99,8 +99,8 @@ def _validate_trace(ctx, name, records, work):
     if not summ or summ[-1]["checked"] != len(records):
         raise vlib.ToolError("Trace_Proxy did not consume %s: %s" % (name, t.out[-1500:]))
     s = summ[-1]
-    if (t.violation is not None) != bool(s["rejected"]):
-        raise vlib.ToolError("Trace_Proxy verdict inconsistent on %s: %s" % (name, t.out[-1500:]))
+    if t.violation is not None:
+        raise vlib.ToolError("Trace_Proxy failed on %s: %s" % (name, t.out[-1500:]))
     return s["checked"], s["nontrivial"], s["rejected"]
 
 
@@ -212,6 +212,7 @@ def run(tier, replay):
     # ------------------------------------------------------------------ 2. behaviours from TLC played on the real code
     observations = []
     next_id = 0
+    selftest_vec = None
     for key, cfg, timeout_ms, ticks in gens:
         g = res["gen_" + key]
         if g.violation:
@@ -237,6 +238,8 @@ def run(tier, replay):
             if o["nontrivial"]:
                 ctx.cov["distinct_nontrivial"] += 1
             observations.append(o["trace"])
+            if o["ok"] and selftest_vec is None and o["nontrivial"] and o["trace"]["got"]["body"] and o["trace"]["entry"] == "core":
+                selftest_vec = by_id[o["id"]]
             if not o["ok"]:
                 bad += 1
                 gl = by_id[o["id"]]
@@ -250,6 +253,18 @@ def run(tier, replay):
         ctx.cov["traces_validated_against_impl"] += len(out)
         ctx.add_part("behaviours " + cfg, generated=total, replayed=len(out), mismatches=bad,
                      retried=len([o for o in out if o.get("retried")]))
+
+    # self-test of the spec -> code direction: one expected value of a vector flipped must be reported, unattributed
+    if selftest_vec is not None:
+        v = copy.deepcopy(selftest_vec)
+        v["exp"]["body"] = v["exp"]["body"][:-2]
+        w = copy.deepcopy(selftest_vec)
+        w["fwd"]["hdrs"] = [h for h in w["fwd"]["hdrs"] if not h.startswith("x-forwarded-for")]
+        w["id"] = v["id"] + 1
+        p = run_bin(proxy, ["replay", "450", "3", "2"], stdin_data=json.dumps(v) + "\n" + json.dumps(w) + "\n")
+        out = parse_jsonl(p.stdout)
+        if len(out) != 2 or any(o["ok"] or o["devs"] for o in out) or out[0]["ans_ok"] or out[1]["fwd_ok"]:
+            raise vlib.ToolError("self-test: the harness accepted a corrupted vector: %s" % p.stdout[-1500:])
 
     # ------------------------------------------------------------------ 3a. byte-offset cuts, validated by TLC
     nseeds, stall_mod = (24, 1) if thorough else (9, 3)
@@ -331,7 +346,8 @@ def run(tier, replay):
         acc, _ = _validate_lb("self-test-balancer", grp, work)
         if acc:
             raise vlib.ToolError("self-test: Trace_LoadBalancer accepted a log with two selections swapped")
-    ctx.add_part("self-test", corrupted_proxy_records_rejected=2, corrupted_balancer_log_rejected=True)
+    ctx.add_part("self-test", corrupted_vectors_reported=2 if selftest_vec is not None else 0, corrupted_proxy_records_rejected=2,
+                 corrupted_balancer_log_rejected=True)
 
     ctx.cov["rule"] = ("every behaviour TLC enumerates for the bounded upstream (per Gen config) is played once against proxy_request and, "
                        "except most deadline cases, proxy_handler; every byte offset of each seed response x {close, stall}; "
